@@ -5,6 +5,7 @@ import (
 	"bytes"
 	"compress/gzip"
 	"fmt"
+	"math"
 	"net"
 	"net/http"
 	"strconv"
@@ -140,6 +141,11 @@ func (g *gzipResponseWriter) passThrough() {
 }
 
 func (g *gzipResponseWriter) Write(b []byte) (int, error) {
+	// A first write without WriteHeader commits an implicit 200 with the header as it stands
+	// now: a WriteHeader call or a header change that comes later is not part of the response
+	if !g.wroteHeader {
+		g.WriteHeader(http.StatusOK)
+	}
 	if g.bufferExceeded {
 		// Stream directly without compression
 		return g.ResponseWriter.Write(b)
@@ -277,6 +283,11 @@ func configInt(v interface{}) (int, bool) {
 	case int64:
 		return int(n), true
 	case float64:
+		// (a number beyond the integer range - min_size: 1e19 - would wrap around to a
+		// negative one when converted)
+		if n >= math.MaxInt64 || n <= math.MinInt64 {
+			return 0, false
+		}
 		return int(n), true
 	}
 	return 0, false
